@@ -108,6 +108,14 @@ pub struct SinkState {
     pub calls: usize,
     pub flushes: usize,
     pub exhausted: bool,
+    /// program-order record of the run: hook events, pipe calls, emplaced messages, returns (for TLC trace validation)
+    pub log: Vec<Value>,
+}
+
+fn drain_hooks_into(log: &mut Vec<Value>) {
+    for h in verif_events_json(verif::take()) {
+        log.push(json!({"t": "hook", "e": h}));
+    }
 }
 
 pub struct ScriptSink {
@@ -136,20 +144,30 @@ impl io::Write for ScriptSink {
             Some(s) => Some(s.clone()),
             None => self.script.pop_front(),
         };
+        drain_hooks_into(&mut st.log);
         match o {
             Some(POut::Data(n)) => {
                 let k = n.min(buf.len());
                 st.sink.extend_from_slice(&buf[..k]);
+                st.log.push(json!({"t": "pipe", "e": {"ev": "write", "offered": buf.to_vec(), "n": k}}));
                 Ok(k)
             }
-            Some(POut::Zero) | Some(POut::Eof) => Ok(0),
-            Some(POut::Err(k)) => Err(io::Error::new(k, "verif: injected write error")),
+            Some(POut::Zero) | Some(POut::Eof) => {
+                st.log.push(json!({"t": "pipe", "e": {"ev": "writezero", "offered": buf.to_vec(), "n": 0}}));
+                Ok(0)
+            }
+            Some(POut::Err(k)) => {
+                st.log.push(json!({"t": "pipe", "e": {"ev": "writeerr", "offered": buf.to_vec(), "n": 0}}));
+                Err(io::Error::new(k, "verif: injected write error"))
+            }
             Some(POut::StuckErr(k)) => {
                 self.stuck = Some(POut::StuckErr(k));
+                st.log.push(json!({"t": "pipe", "e": {"ev": "writeerr", "offered": buf.to_vec(), "n": 0}}));
                 Err(io::Error::new(k, "verif: injected write error (persistent)"))
             }
             Some(POut::StuckZero) => {
                 self.stuck = Some(POut::StuckZero);
+                st.log.push(json!({"t": "pipe", "e": {"ev": "writezero", "offered": buf.to_vec(), "n": 0}}));
                 Ok(0)
             }
             None => {
@@ -162,7 +180,10 @@ impl io::Write for ScriptSink {
         }
     }
     fn flush(&mut self) -> io::Result<()> {
-        self.st.borrow_mut().flushes += 1;
+        let mut st = self.st.borrow_mut();
+        st.flushes += 1;
+        drain_hooks_into(&mut st.log);
+        st.log.push(json!({"t": "pipe", "e": {"ev": "flush", "offered": [], "n": 0}}));
         Ok(())
     }
 }
@@ -600,6 +621,7 @@ pub struct SendRun {
     pub calls_per_send: Vec<usize>,
     pub sink_after: Vec<usize>,
     pub poisoned: bool,
+    pub trace: Vec<Value>,
 }
 
 pub fn run_blocking_sender<T: Shape + ?Sized>(msgs: &[Value], script: Vec<POut>, maxlen: usize, budget: usize) -> Obs<SendRun> {
@@ -611,7 +633,7 @@ pub fn run_sender<T: Shape + ?Sized>(msgs: &[Value], script: Vec<POut>, maxlen: 
     let asyncv = mode > 0;
     let pipe = ScriptSink::new(script, budget);
     let st = pipe.st.clone();
-    let empty = || SendRun { rets: vec![], real_msgs: vec![], sink: vec![], over_budget: false, calls_per_send: vec![], sink_after: vec![], poisoned: false };
+    let empty = || SendRun { rets: vec![], real_msgs: vec![], sink: vec![], over_budget: false, calls_per_send: vec![], sink_after: vec![], poisoned: false, trace: vec![] };
     let shared = std::rc::Rc::new(std::cell::RefCell::new(empty()));
     let sh = shared.clone();
     let st2 = st.clone();
@@ -633,7 +655,17 @@ pub fn run_sender<T: Shape + ?Sized>(msgs: &[Value], script: Vec<POut>, maxlen: 
                 };
                 let size = g.size();
                 sh.borrow_mut().real_msgs.push(g.as_bytes()[..size.min(g.as_bytes().len())].to_vec());
+                {
+                    let mut stl = st2.borrow_mut();
+                    drain_hooks_into(&mut stl.log);
+                    stl.log.push(json!({"t": "emplaced", "e": {"ev": "emplaced", "offered": g.as_bytes()[..size.min(g.as_bytes().len())].to_vec(), "n": g.as_bytes().len()}}));
+                }
                 let r = g.send();
+                {
+                    let mut stl = st2.borrow_mut();
+                    drain_hooks_into(&mut stl.log);
+                    stl.log.push(json!({"t": "ret", "e": {"ev": if r.is_ok() { "ok" } else { "err" }, "offered": [], "n": 0}}));
+                }
                 let c1 = st2.borrow().calls;
                 let mut run = sh.borrow_mut();
                 run.calls_per_send.push(c1 - c0);
@@ -660,7 +692,17 @@ pub fn run_sender<T: Shape + ?Sized>(msgs: &[Value], script: Vec<POut>, maxlen: 
                     };
                     let size = g.size();
                     sh.borrow_mut().real_msgs.push(g.as_bytes()[..size.min(g.as_bytes().len())].to_vec());
+                    {
+                        let mut stl = st2.borrow_mut();
+                        drain_hooks_into(&mut stl.log);
+                        stl.log.push(json!({"t": "emplaced", "e": {"ev": "emplaced", "offered": g.as_bytes()[..size.min(g.as_bytes().len())].to_vec(), "n": g.as_bytes().len()}}));
+                    }
                     let r = g.send().await;
+                    {
+                        let mut stl = st2.borrow_mut();
+                        drain_hooks_into(&mut stl.log);
+                        stl.log.push(json!({"t": "ret", "e": {"ev": if r.is_ok() { "ok" } else { "err" }, "offered": [], "n": 0}}));
+                    }
                     let c1 = st2.borrow().calls;
                     let mut run = sh.borrow_mut();
                     run.calls_per_send.push(c1 - c0);
@@ -680,6 +722,7 @@ pub fn run_sender<T: Shape + ?Sized>(msgs: &[Value], script: Vec<POut>, maxlen: 
     let finish = |shared: std::rc::Rc<std::cell::RefCell<SendRun>>| {
         let mut run = std::mem::replace(&mut *shared.borrow_mut(), empty());
         run.sink = st.borrow().sink.clone();
+        run.trace = std::mem::take(&mut st.borrow_mut().log);
         // a send that was cut short by the end of the script has no result
         while run.real_msgs.len() > run.rets.len() {
             run.rets.push("exhausted".into());
@@ -790,6 +833,13 @@ impl<'a> Visitor for IoSendVisitor<'a> {
         };
         if let Err(e) = sink_framed(&run) {
             out.viol(p, "sink", id, &format!("{}:framing", variant), format!("{} under {:?}", e, kinds_path(path)));
+        }
+        // keep the recorded run for TLC trace validation (spec/TraceIoSend.tla)
+        if mode < 2 {
+            if let Some(sink) = &eng.trace_sink {
+                let cap = 2 * maxlen.max(T::MIN_SIZE);
+                sink.borrow_mut().push(json!({"kind": "iosend", "id": id, "cap": cap, "mode": mode, "events": run.trace}));
+            }
         }
         // determined bytes of every message that reached the sink completely
         for (i, m) in run.real_msgs.iter().enumerate() {
